@@ -188,6 +188,13 @@ func GenCase(mode string) func(t *rapid.T) Case {
 				c.Ops = append(c.Ops, Op{H: genHint(t, c.V6, mode)})
 			}
 		}
+		if mode == "C06" && rapid.IntRange(0, 7).Draw(t, "freerace") == 0 {
+			n := rapid.IntRange(1, 2).Draw(t, "freerace-n")
+			for i := 0; i < n; i++ {
+				c.FreeRace = append(c.FreeRace, rapid.Uint64Range(0, 64).Draw(t, "freerace-k"))
+			}
+			c.FreeRaceG = rapid.IntRange(2, 8).Draw(t, "freerace-g")
+		}
 		if mode == "C04" && rapid.IntRange(0, 3).Draw(t, "conc") == 0 {
 			g := rapid.IntRange(2, 8).Draw(t, "goroutines")
 			for i := 0; i < g; i++ {
